@@ -1,7 +1,8 @@
 (** C04 — load, save, load again: foreign and legacy input is normalised without loss.
     Statements only; proofs live in Proofs/FontRTP.v and Proofs/FontToyP.v. *)
-Require Import Norad.Model.Base Norad.Model.FontRT Norad.Model.FontToy Norad.Model.FontNum
-               Norad.Proofs.FontRTP Norad.Proofs.FontToyP Norad.Proofs.FontNumP.
+Require Import Norad.Model.GlifSpec Norad.Model.GlifEncode Norad.Proofs.GlifEncodeP Norad.Proofs.GlifRoundtripP.
+Require Import Norad.Model.Base Norad.Model.FontRT Norad.Model.FontToy Norad.Model.FontNum Norad.Model.FontReal
+               Norad.Proofs.FontRTP Norad.Proofs.FontToyP Norad.Proofs.FontNumP Norad.Proofs.FontRealP.
 Open Scope N_scope.
 
 (** whatever the format of the input (1, 2 or 3), a loaded font says format 3 *)
@@ -66,3 +67,31 @@ Proof. split; [exact toy_ok|exact toy_closed]. Qed.
 Example C04_fixed_point_example :
   exists t f, save toy_sig 0 toy_font = Ok t /\ load toy_sig t = Ok f /\ font_valid toy_sig f.
 Proof. exact fixed_point_example. Qed.
+
+(** ---------- with the REAL part models (glif codec, font info, groups / kerning maps and validator) plugged in (Model/FontReal.v) ----------
+    The real glif reader is not closed on [wf_glyph] (it returns glyphs with libs, which the proved
+    round trip of C02 does not cover yet), so the real instance of the fixed point is conditional on
+    the loaded font being valid; what the reader does guarantee for every loaded glyph is proved
+    separately ([C04_loaded_glyphs_obey_rules_real], from C12_returned_glyph_rules).
+    Remaining hypotheses: [codecs_ok K], [L1_glif] (see Props/C01.v, C01_roundtrip_real) and
+    [font_valid f] for the loaded font (to be reduced to: its glyphs are lib-free and canonical, once
+    the base parts are closed — C13_load_only_valid, C15_load_returns_only_ok). *)
+Theorem C04_fixed_point_real : forall pf ff ff3 fi fh (K : codecs),
+  L1_glif pf ff ff3 fh -> codecs_ok K ->
+  forall o (t : tree (real_sig pf ff ff3 fi fh K)) (f : font (real_sig pf ff ff3 fi fh K)),
+  load (real_sig pf ff ff3 fi fh K) t = Ok f -> font_valid (real_sig pf ff ff3 fi fh K) f ->
+  exists t', save (real_sig pf ff ff3 fi fh K) o f = Ok t' /\
+             exists f', load (real_sig pf ff ff3 fi fh K) t' = Ok f' /\ font_equiv (real_sig pf ff ff3 fi fh K) f f'.
+Proof.
+  intros pf ff ff3 fi fh K L HB o t f _ Hv.
+  destruct (roundtrip_real pf ff ff3 fi fh K L HB o f Hv) as (t' & H1 & _ & H2). eauto.
+Qed.
+(** every glyph of a font loaded through the real glif reader is a parsed glyph — it obeys the
+    glyph rules of C12 and holds no public.objectLibs — renamed to its key of contents.plist *)
+Theorem C04_loaded_glyphs_obey_rules_real : forall pf ff ff3 fi fh (K : codecs)
+  (t : tree (real_sig pf ff ff3 fi fh K)) (f : font (real_sig pf ff ff3 fi fh K)),
+  load (real_sig pf ff ff3 fi fh K) t = Ok f ->
+  Forall (fun l => Forall (fun e : str * str * glyph =>
+            exists g, glyph_rules g /\ lookup objlibs_key (glib g) = None /\ snd e = set_gname (fst (fst e)) g)
+            (l_glyphs l)) (f_layers _ f).
+Proof. exact loaded_glyphs_rules_real. Qed.
